@@ -264,6 +264,10 @@ impl GenericsAnalyzer {
                                 let where_paths = extract_trait_bounds(&predicate_type.bounds);
 
                                 deps_trait_bounds.extend(where_paths);
+                            } else {
+                                // bounds of the other (lifted) type parameters, like in `deps_with_generics`:
+                                // predicates on their projections (`T::Item: ..`) depend on them
+                                self.trait_generics.where_predicates.push(predicate.clone());
                             }
                         }
                         _ => {
